@@ -51,7 +51,7 @@ fn strip(v: Value) -> Value {
 
 fn common_value(r: &dyn CommonResponse, valve_projection: bool) -> Value {
     match r.as_original() {
-        GenericResponse::Valve(v) if valve_projection => serde_json::to_value(game::Response::new_from_valve_response(v.clone())).unwrap_or(Value::Null),
+        GenericResponse::Valve(v) if valve_projection => serde_json::to_value(crate::models::valve::project_game(v)).unwrap_or(Value::Null),
         other => strip(serde_json::to_value(other).unwrap_or(Value::Null)),
     }
 }
@@ -126,7 +126,7 @@ fn module_query(id: &str, g: &Game, ip: &IpAddr, port: Option<u16>) -> Option<R>
 fn protocol_query(g: &Game, ip: &IpAddr, port: Option<u16>) -> Option<R> {
     let sa = SocketAddr::new(*ip, port.unwrap_or(g.default_port));
     Some(match &g.protocol {
-        Protocol::Valve(e) => as_r(valve::query(&sa, *e, Some(g.request_settings.clone().into()), None), |r| tv(game::Response::new_from_valve_response(r))),
+        Protocol::Valve(e) => as_r(valve::query(&sa, *e, Some(g.request_settings.clone().into()), None), |r| tv(crate::models::valve::project_game(&r))),
         Protocol::Unreal2 => as_r(unreal2::query(&sa, &unreal2::GatheringSettings::default(), None), tv),
         Protocol::Gamespy(GameSpyVersion::One) => as_r(gamespy::one::query(&sa, None), tv),
         Protocol::Gamespy(GameSpyVersion::Two) => as_r(gamespy::two::query(&sa, None), tv),
